@@ -501,7 +501,7 @@ func C14(c *Ctx) {
 	w, r := c.W, c.R
 	r.Explanation = "(A10) abort-source inventory on the block-level roots (BeginBlock, EndBlock, registered invariants) over the repo call graph: every explicit panic and every call of a panicking SDK API reachable from them is enumerated; each must be discharged by its class — lookup of an id read from the queue section it iterates (found / status panics, consistent by C03's writer rules), error of a setter that fails only on an invalid constant, permission panics excluded by the evaluated maccPerms (enterprise holds Minter and Staking) — or appear in the reviewed table keyed by function, kind and ordinal; anything else is a violation. " +
 		"Denomination provenance: a Coin.Add/Sub on a block-level path whose operands take their denomination from different sources (module parameter vs stored record) is flagged. (b) handlers and ante decorators keep all state in the transaction-scoped stores: C01's out-of-band-state rule restricted to MSG ∪ ANTE roots, so baseapp's rollback covers everything a failed transaction did. (c) error discipline (A8): on every transaction, block and genesis path the error result of a call that can change state (store write/delete or bank move, directly or through in-scope callees) has at least one use — a discarded error would let a handler commit the remaining steps of a half-failed operation, since baseapp rolls back only on a returned error. Atomicity and panic recovery of runTx are trusted; reachability of reviewed panics over all histories is not decided."
-	r.Rules = []string{"A10.block-panics", "A2.panic-class", "A10.denom-provenance", "A5.module-permissions", "A6.tx-scoped-state", "A6.no-recover", "A8.error-propagation"}
+	r.Rules = []string{"A10.block-panics", "A2.panic-class", "A10.denom-provenance", "A5.module-permissions", "A6.tx-scoped-state", "A6.no-recover", "A8.error-propagation", "A10.implicit-panic"}
 	r.Trusted = []string{"baseapp runTx: cache-wrapped stores, panic recovery, all-or-nothing message execution", "reasons in the reviewed table"}
 	r.NotDecided = []string{"that reviewed panics are unreachable for every history", "commit/IAVL failures"}
 
@@ -555,6 +555,7 @@ func C14(c *Ctx) {
 		}
 	}
 	r.Floor("abort sources on block-level paths", n, 12)
+	implicitPanics(c, fs)
 	r.Floor("explicit panics discharged as queue/lookup consistency", classes["queued-order-found"]+classes["queued-order-status"], 2)
 
 	// A5 permissions
@@ -832,4 +833,136 @@ func blockPanicClass(c *Ctx, f *ssa.Function, p *ssa.Panic, class string) bool {
 		}, 0)
 	}
 	return false
+}
+
+// implicitPanics (A10.implicit-panic): run-time panics that no `panic` statement announces, on block-level
+// paths: indexing a slice / string with a computed index, slicing with computed bounds, a type assertion
+// without the comma-ok form, an integer division by a non-constant. Each site must be structurally safe:
+//   * an index that is the induction variable of a `for range` over the same slice (go/ssa shape:
+//     phi(-1, i+1) + 1 compared with len) or a constant below a literal length;
+//   * an index / bound guarded by a dominating comparison with len of the same slice;
+//   * a divisor guarded by a dominating != 0 / > 0.
+// Anything else is reported (the chain halts if BeginBlock panics).
+func implicitPanics(c *Ctx, fs []*ssa.Function) {
+	w, r := c.W, c.R
+	n := 0
+	for _, f := range fs {
+		ord := map[string]int{}
+		for _, b := range f.Blocks {
+			for _, in := range b.Instrs {
+				kind, detail := "", ""
+				ok := false
+				switch x := in.(type) {
+				case *ssa.IndexAddr:
+					if _, isC := x.Index.(*ssa.Const); isC {
+						if _, isArr := ptrElem(x.X.Type()).Underlying().(*types.Array); isArr {
+							continue
+						}
+					}
+					kind = "index"
+					ok = rangeIndex(x.Index) || lenGuarded(c, f, in, x.Index, x.X) || constIndexIntoFixedParse(c, x.Index, x.X)
+					detail = w.ExprOf(x.Index).String()
+				case *ssa.Index:
+					if _, isC := x.Index.(*ssa.Const); isC {
+						continue
+					}
+					kind = "index"
+					ok = rangeIndex(x.Index) || lenGuarded(c, f, in, x.Index, x.X)
+					detail = w.ExprOf(x.Index).String()
+				case *ssa.TypeAssert:
+					if x.CommaOk {
+						continue
+					}
+					kind = "type-assert"
+					detail = x.AssertedType.String()
+				case *ssa.BinOp:
+					if x.Op != token.QUO && x.Op != token.REM {
+						continue
+					}
+					bt, isB := x.Type().Underlying().(*types.Basic)
+					if !isB || bt.Info()&types.IsInteger == 0 {
+						continue
+					}
+					if cst, isC := x.Y.(*ssa.Const); isC && cst.Value != nil && cst.Value.String() != "0" {
+						continue
+					}
+					kind = "int-div"
+					detail = w.ExprOf(x.Y).String()
+					ys := w.ExprOf(x.Y).String()
+					ok = w.Guarded(f, in, func(p ir.Pred) bool {
+						return cmpIs(p, "!=", func(a *ir.Expr) bool { return a.String() == ys }, func(b2 *ir.Expr) bool { return b2.Op == "const" && b2.Name == "0" }) ||
+							cmpIs(p, ">", func(a *ir.Expr) bool { return a.String() == ys }, func(b2 *ir.Expr) bool { return b2.Op == "const" })
+					}, 0)
+				default:
+					continue
+				}
+				n++
+				ord[kind]++
+				r.Require(ok, "A10.implicit-panic", fmt.Sprintf("%s|%s|%d", fn(f), kind, ord[kind]), pos(c, in), "no unguarded run-time panic source (computed index, unchecked type assertion, division by a variable) on a block-level path", kind+" "+detail)
+			}
+		}
+	}
+	r.Analysed["implicit_panic_sites_on_block_level_paths"] = n
+}
+
+// rangeIndex: the index is the induction variable of a range loop as go/ssa lowers it: phi(-1, self)+1.
+func rangeIndex(v ssa.Value) bool {
+	bo, ok := v.(*ssa.BinOp)
+	if !ok || bo.Op != token.ADD {
+		return false
+	}
+	one, ok := bo.Y.(*ssa.Const)
+	if !ok || one.Value == nil || one.Value.String() != "1" {
+		return false
+	}
+	ph, ok := bo.X.(*ssa.Phi)
+	if !ok {
+		return false
+	}
+	for _, e := range ph.Edges {
+		if cst, ok := e.(*ssa.Const); ok && cst.Value != nil && cst.Value.String() == "-1" {
+			continue
+		}
+		if e == ssa.Value(bo) {
+			continue
+		}
+		return false
+	}
+	return true
+}
+
+// lenGuarded: the access is dominated by idx < len(s) (or len(s) > idx) for the same slice.
+func lenGuarded(c *Ctx, f *ssa.Function, at ssa.Instruction, idx, s ssa.Value) bool {
+	w := c.W
+	is, ss := w.ExprOf(idx).String(), w.ExprOf(s).String()
+	isLen := func(e *ir.Expr) bool {
+		return e.Op == "call" && e.Name == "builtin:len" && len(e.Args) == 1 && e.Args[0].String() == ss
+	}
+	return w.Guarded(f, at, func(p ir.Pred) bool {
+		return cmpIs(p, "<", func(a *ir.Expr) bool { return a.String() == is }, isLen)
+	}, 0)
+}
+
+// constIndexIntoFixedParse: a constant index into the bytes returned by sdk.ParseLengthPrefixedBytes(key, start, n)
+// with a constant n above it (that call returns exactly n bytes or panics itself, which is inventoried separately).
+func constIndexIntoFixedParse(c *Ctx, idx, s ssa.Value) bool {
+	ic, ok := idx.(*ssa.Const)
+	if !ok || ic.Value == nil {
+		return false
+	}
+	e := c.W.ExprOf(s)
+	if e.Op == "res" && e.Name == "0" && len(e.Args) == 1 {
+		e = e.Args[0]
+	}
+	if !(e.Op == "call" && strings.HasSuffix(e.Name, "types.ParseLengthPrefixedBytes") && len(e.Args) == 3 && e.Args[2].Op == "const") {
+		return false
+	}
+	var i, n int
+	if _, err := fmt.Sscan(ic.Value.String(), &i); err != nil {
+		return false
+	}
+	if _, err := fmt.Sscan(e.Args[2].Name, &n); err != nil {
+		return false
+	}
+	return i >= 0 && i < n
 }
